@@ -52,16 +52,18 @@ def gen(ctx):
             dm["units"] = k
         cases.append({"kind": "score", "spec": spec, "dm": dm})
     # malformed stream: refusal clause
-    for _ in range(ctx.n(100, 1500)):
-        name = rng.choice(["WSM", "WPM", "FMF", "MultiMOORA"])
+    combos = [(nm, hw) for nm in ("WSM", "WPM", "FMF", "MultiMOORA") for hw in ("min-objective", "zero", "negative", "tiny-negative", "none")]
+    for it in range(ctx.n(120, 1500)):
+        name, how = combos[it % len(combos)]  # every (method, malformation) pair gets the same share of the stream
         spec = {"name": name}
         dm = M.in_domain_dm(rng, spec, max_m=6, max_n=4)
-        how = rng.choice(["min-objective", "zero", "negative", "none"])
+        tiny_forced = how == "tiny-negative"
+        how = "negative" if tiny_forced else how
         if how == "min-objective":
             dm["objectives"][rng.randrange(len(dm["objectives"]))] = -1
         elif how in ("zero", "negative"):
             i, j = rng.randrange(len(dm["matrix"])), rng.randrange(len(dm["objectives"]))
-            tiny = rng.random() < 0.4  # a negative value is a negative value, however small
+            tiny = tiny_forced or rng.random() < 0.2  # a negative value is a negative value, however small
             dm["matrix"][i][j] = 0.0 if how == "zero" else (-(2.0 ** -rng.randint(30, 60)) if tiny else -abs(dm["matrix"][i][j]) - 0.125)
             dm["int_matrix"] = False
         cases.append({"kind": "refusal", "spec": spec, "dm": dm, "how": how})
